@@ -597,7 +597,9 @@ func runCase(h []int, _ json.RawMessage) (out xplore.Out) {
 					}
 				}
 			}
-			viol("valid-tx-left-out:"+cls, "%s is pooled, valid at height %d, its inputs are unspent and %d gas is left, but it is not in the block (pool order %s, block %s)", p.Name, height, gasLeft+p.Gas, names(pool), blockNames(block))
+			// observation, not a violation: the property demands that the proposed block is accepted,
+			// not that it is complete (counted in the outcome histogram)
+			classes["valid-tx-left-out:"+cls] = true
 			break // whatever follows depends on this transaction: one report per case
 		}
 	}
